@@ -1963,6 +1963,29 @@ class AI(object):
                         out.append((Ptr('M', None, None), s2))
         return out
 
+    def x_copy(self, e, args, st, u):
+        """std::copy(first, last, out) over pointers into one array: writes out[0..last-first) and returns out + (last-first)."""
+        if len(args) != 3:
+            return self._unknown_call(e, args, st, u, callee(e))
+        out = []
+        for (fv, s0) in self.eval(args[0], st, u):
+            for (lv, s1) in self.eval(args[1], s0, u):
+                for (ov, s2) in self.eval(args[2], s1, u):
+                    n = None
+                    if isinstance(fv, Ptr) and isinstance(lv, Ptr) and fv.target is not None and fv.target == lv.target and \
+                            fv.off is not None and lv.off is not None:
+                        n = self.sub(lv.off, fv.off)
+                    if isinstance(ov, Ptr) and ov.target is not None and ov.off is not None and isinstance(n, Int) and \
+                            n.lo not in (INF, -INF) and n.hi not in (INF, -INF) and n.lo >= 0:
+                        if n.hi >= 1:
+                            self._check_access(e, Ptr(ov.null, ov.target, Int(ov.off.lo, ov.off.hi + n.hi - 1)), s2, u, True)
+                        out.append((Ptr(ov.null, ov.target, Int(ov.off.lo + n.lo, ov.off.hi + n.hi)), s2))
+                    else:
+                        if isinstance(ov, Ptr) and ov.target is not None:
+                            self.obs.store(self, e, Ptr(ov.null, ov.target, None), self._array_extent(ov.target, u), s2)
+                        out.append((Ptr('M', None, None), s2))
+        return out
+
     # ------------------------------------------------------------------ refinement
     def refine_value(self, loc, v, st, truth, t):
         """Constrain the value at loc to be truthy / falsy."""
